@@ -86,12 +86,23 @@ theorem SimInv1.toSim {K : Comb κ α β} {P : Inv1T κ α β} (h : SimInv1 K P)
 theorem SimInv1.sound {K : Comb κ α β} {P : Inv1T κ α β} (h : SimInv1 K P) {k0 : κ}
     {spec : List α → List β → Prop}
     (h0 : P {} k0 {} [] [])
-    (hc : ∀ pu k pd su sd, P pu k pd su sd → pu.closed = true → pd.closed = true ∧ spec su sd) :
+    (hc : ∀ pu k pd su sd, P pu k pd su sd → pd.WF → pu.closed = true → pd.closed = true ∧ spec su sd) :
     K.Sound k0 [0] (fun _ => spec) :=
   h.toSim.sound h0 (by
-    intro pu k pd su sd hi hcl i hi'
+    intro pu k pd su sd hi hwf hcl i hi'
     simp only [List.mem_singleton] at hi'
     subst hi'
-    exact hc _ _ _ _ _ hi hcl)
+    exact hc _ _ _ _ _ hi (hwf 0) hcl)
 
+end HvPush
+
+namespace HvPush
+/-- the single-port invariant holds at the end of every contract-honouring history -/
+theorem SimInv1.reach {K : Comb κ α β} {P : Inv1T κ α β} (h : SimInv1 K P) {k0 k' : κ}
+    (h0 : P {} k0 {} [] []) {up : List (Ev α)} {down : List (PEv β)}
+    (ht : K.Tr k0 up down k') (hok : ProtoOk up) :
+    ∃ pu pd, PSt.run {} up = some pu ∧ P pu k' pd (sends up) (sends (port 0 down)) := by
+  obtain ⟨pu', hpu⟩ := ProtoOk_iff.1 hok
+  obtain ⟨pd', _, hi⟩ := h.toSim.tr ht {} (fun _ => {}) [] (fun _ => []) pu' h0 hpu
+  exact ⟨pu', pd' 0, hpu, by simpa using hi⟩
 end HvPush
